@@ -327,8 +327,36 @@ def norm_native_edges(t):
     return t
 
 
+ALPHA_MATCHES = [0]
+
+
 def compare(real, out, with_ids=False, native_sets=False):
     """Returns None if equal, else (real_text, model_text)."""
+    d = _compare_exact(real, out, with_ids, native_sets)
+    if d is None or real[0] != "ok":
+        return d
+    # not textually equal: accept a program that differs only by a domain-preserving renaming of its hidden variables
+    try:
+        m = core.parse_sx(out)
+        s = real[3]
+        rt = core.parse_sx(real[1])
+        mt = m[1] if with_ids else m
+        if not (isinstance(mt, list) and mt and mt[0] == "prog"):
+            return d
+        if native_sets:
+            rt, mt = norm_native_edges(rt), norm_native_edges(mt)
+        base = len(s.variables) - len(rt[1])
+        rids = [str(x) for x in real[2]] if with_ids else None
+        mids = m[2] if with_ids else None
+        if exprio.alpha_canon(rt, base, rids) == exprio.alpha_canon(mt, base, mids):
+            ALPHA_MATCHES[0] += 1
+            return None
+    except Exception:
+        pass
+    return d
+
+
+def _compare_exact(real, out, with_ids=False, native_sets=False):
     m = core.parse_sx(out)
     if real[0] == "err":
         r = ["err", real[1]]
@@ -364,6 +392,8 @@ def run_cases(ctx, casefn, count, label, with_ids=False, native_sets=False):
         ctx.case({"call": desc, "program": (real[1][:300] if real[0] == "ok" else real[1])}, line if nontriv else None)
         if d is not None:
             ctx.disagree("program:" + label, call=desc, real=d[0][:3000], model=d[1][:3000], line=line[:2000])
+    if ALPHA_MATCHES[0]:
+        ctx.extra["programs_equal_only_up_to_renaming_of_auxiliary_variables"] = ALPHA_MATCHES[0]
 
 
 def case_frame_cycle(rng):
